@@ -14,7 +14,7 @@ from ..gen import taintgen
 from . import c07
 
 PID = "C12"
-RENAMABLE = ["helper", "other", "Thing", "Base", "make", "apply", "rec", "ping", "pong", "produced", "inherited", "method", "own",
+RENAMABLE = ["token", "show", "relay", "helper", "other", "Thing", "Base", "make", "apply", "rec", "ping", "pong", "produced", "inherited", "method", "own",
              "ident", "second", "Obj", "Box", "setg", "getg", "v0", "v1", "main", "driver", "li0", "di0", "ob0", "bx0", "r", "t", "cond"]
 PURE_MOVABLE = ["ident", "second", "helper", "other"]
 
@@ -30,6 +30,10 @@ def base_programs(quick):
             s, k = taintgen.rules("call", "call")
             out.append({"name": f"taint:{'+'.join(ch) or 'direct'}:{placement}", "files": prog["files"],
                         "settings": taintgen.settings([s], [k])})
+    shadow = ("def src():\n    return 'secret'\ndef snk(v):\n    return None\ndef show(token):\n    snk(token)\ndef token():\n    return 1\n"
+              "def relay(helper):\n    return helper\ndef helper(a):\n    return a\nt = src()\nshow(t)\nu = relay(t)\nsnk(u)\nw = token()\n")
+    s0, k0 = taintgen.rules("call", "call")
+    out.append({"name": "taint:param-shadows-later-function", "files": {"main.py": shadow}, "settings": taintgen.settings([s0], [k0])})
     kinds = ["direct", "method", "inherited", "callback", "returned", "stored-var", "recursion", "two-sites"]
     if quick:
         kinds = kinds[:5]
@@ -109,6 +113,23 @@ def edits(prog, quick):
                 return None          # lines of the moved function live in moved.py now
             return l + 1 - ((b - a) if i >= b else 0)
         yield (f"move-function:{nm}", dict(files, **{"main.py": "\n".join(new) + "\n", "moved.py": moved}), lm, {"__moved__": nm})
+    rf = reexport_edit(prog)
+    if rf is not None:
+        yield ("move-behind-reexport:helper", rf, ident, {"__names_only__": "1"})
+
+
+def reexport_edit(prog):
+    """move `helper` out of lib.py into moved.py and let lib.py re-export it (lib.py keeps its other definitions)"""
+    files = prog["files"]
+    if "lib.py" not in files or "moved.py" in files:
+        return None
+    lines = files["lib.py"].splitlines()
+    blk = next(((a, b) for a, b, k, n in top_level_blocks(files["lib.py"]) if k == "def" and n == "helper"), None)
+    if blk is None:
+        return None
+    a, b = blk
+    new_lib = ["from moved import helper"] + lines[:a] + lines[b:]
+    return dict(files, **{"lib.py": "\n".join(new_lib) + "\n", "moved.py": "\n".join(lines[a:b]) + "\n"})
 
 
 def run_case(case):
@@ -129,6 +150,11 @@ def normalise(res, line_map, name_map, is_base):
     for (sf, sl), (kf, kl) in res["flows"]:
         flows.add(((sf, ml(sf, sl)), (kf, ml(kf, kl))))
     edges = set()
+    if name_map.get("__names_only__"):
+        for p in res.get("call_paths", []):
+            for (cf, cn), (sf, sl), (ef, en) in p:
+                edges.add((cn, en))
+        return {(s[1], k[1]) if False else (s, k) for s, k in flows} if False else flows, edges
     moved = name_map.get("__moved__")
     for p in res.get("call_paths", []):
         for (cf, cn), (sf, sl), (ef, en) in p:
